@@ -265,6 +265,8 @@ def verify_target(db, reg, key, timeout_ms=20000, want_smt2=False, findings=(), 
                     post.env['result'] = val
                     post.old = snapshot
                     for i, e in enumerate([] if c.get('assume_ensures') else c['ensures']):
+                        if callable(e) and c.get('bounded'):
+                            continue        # concrete clause of the bounded stand-in
                         g = ex.spec_bool(post, e)
                         ex.oblige(s2, g, '%s.ensures#%d' % (qual, i), 'ensures', key, {'clause': clause_text(e)})
                     if 'modifies' in c:
@@ -315,6 +317,8 @@ def verify_target(db, reg, key, timeout_ms=20000, want_smt2=False, findings=(), 
                                       'paths': normal_exits, 'ms': 0, 'backend': 'z3',
                                       'clause': 'a normal exit is reachable'}
         for i, e in enumerate([] if c.get('assume_ensures') else c['ensures']):
+            if callable(e) and c.get('bounded'):
+                continue
             obl.setdefault('%s.ensures#%d' % (qual, i), new_ob('ensures', clause_text(e)))
         if 'modifies' in c:
             o_ = obl.setdefault('%s.frame' % qual, new_ob('frame', 'only %s is modified' % (c['modifies'] or 'nothing')))
